@@ -1,4 +1,5 @@
 import SecpZkp.Gen.K_ct
+import SecpZkp.Gen.K_ct32
 import SecpZkp.Proofs.MiniC
 /-
   C06: secret-dependent data never steers branches or memory addresses — source-level part.
@@ -8,7 +9,8 @@ import SecpZkp.Proofs.MiniC
   primitives and the arithmetic kernels that the constant-time code paths are built from
   (`secp256k1_fe_impl_cmov`, `secp256k1_scalar_cond_negate`, `secp256k1_scalar_cmov`, `secp256k1_int_cmov`,
   `secp256k1_gej_cmov`, `secp256k1_ge_storage_cmov`, `secp256k1_fe_impl_normalize`, `…_half`, `…_negate`,
-  `secp256k1_fe_mul_inner`, `secp256k1_fe_sqr_inner`, `secp256k1_scalar_add`, `…_negate`, `…_is_high`, …).
+  `secp256k1_fe_mul_inner`, `secp256k1_fe_sqr_inner`, `secp256k1_scalar_add`, `…_negate`, `…_is_high`, `secp256k1_scalar_mul`,
+  the complete constant-time point addition `secp256k1_gej_add_ge`, `secp256k1_gej_double`, `secp256k1_ge_to_storage`, …).
 
   The information-flow checker `MiniC.Taint.checkL` is run with the EMPTY labelling, under which every
   input — every limb of every operand and every flag — is SECRET (only literals and loop counters are
@@ -46,8 +48,27 @@ theorem ct_targets_leakage_independent :
 theorem ct_targets_names :
     Gen.ct.all.map (·.1) = ["fe_cmov", "fe_storage_cmov", "scalar_cmov", "scalar_cond_negate", "scalar_negate",
       "scalar_add", "scalar_is_high", "scalar_check_overflow", "scalar_is_zero", "int_cmov", "fe_normalize",
-      "fe_normalizes_to_zero", "fe_negate", "fe_half", "fe_mul_inner", "fe_sqr_inner", "gej_cmov", "ge_storage_cmov"] := by
+      "fe_normalizes_to_zero", "fe_negate", "fe_half", "fe_mul_inner", "fe_sqr_inner", "gej_cmov", "ge_storage_cmov",
+      "gej_add_ge", "gej_double", "gej_neg", "ge_to_storage", "fe_get_b32", "scalar_mul"] := by
   decide
+
+/-! The same primitives as compiled for the 32-bit limb configuration (10x26 field, 8x32 scalar; `-DUSE_FORCE_WIDEMUL_INT64`). -/
+
+theorem ct32_targets_typecheck :
+    ∀ p ∈ Gen.ct32.all, (Taint.checkL [] p.2.body).isSome = true ∧ Taint.noDeclassify p.2.body = true := by
+  decide +kernel
+
+theorem ct32_targets_leakage_independent :
+    ∀ p ∈ Gen.ct32.all, ∀ e1 e2 : Env,
+      (execL e1 p.2.body).leak = (execL e2 p.2.body).leak ∧
+      (execL e1 p.2.body).ret.isSome = (execL e2 p.2.body).ret.isSome := by
+  intro p hp e1 e2
+  obtain ⟨hc, hnd⟩ := ct32_targets_typecheck p hp
+  obtain ⟨g', hg'⟩ := Option.isSome_iff_exists.mp hc
+  have h := Taint.checkL_sound (e1 := e1) (e2 := e2) hnd (Taint.lowEq_nil e1 e2) hg'
+  exact ⟨h.1, h.2.1⟩
+
+theorem ct32_targets_names : Gen.ct32.all.map (·.1) = Gen.ct.all.map (·.1) := by decide
 
 /-- The checker is not trivially permissive: a data-dependent early exit (the mutant described in the
     property: `if (!flag) return` added to a conditional negate) is rejected. -/
